@@ -1,4 +1,152 @@
-/- Driver.C07 — stream `C07` (stub: replaced when the property's model is built). -/
+/-
+  Driver.C07 — stream `C07`: payload `(cfg attrs steps)`
+    cfg   := (ids names classes tags)          -- true | false : constructor arguments
+    attrs := ("a*)                             -- addIndexOnAttribute before the first parse
+    step  := (parse node) | (setattr uid "k "v) | (delattr uid "k) | (addclass uid "c) | (rmclass uid "c)
+           | (append uid node) | (remove uid)
+           | (addindex "a) | (rmindex "a) | (disable) | (reindex o o o o)   -- o := none | true | false
+           | (setroot uid) | (maps) | (query recv op useIndex)
+    recv  := (P) | (P uid)     op := (tag "q) | (name "q) | (id "q) | (cls "q) | (attr "a "v) | (vals "a ("v*))
+  node as in stream C06.  Output: one observation per step:
+    ok | (err) | (maps …) | (q <indexed answer> <answer of the plain search>)
+-/
+import AHP.Model.Index
+import Driver.C06
 namespace Driver.C07
-def run (_payload : String) : String := "unimplemented"
+open AHP AHP.Sexp
+
+structure St where
+  idx : Idx
+  doc : Option Node
+
+def toBool : Sexp → Option Bool
+  | .atom "true" => some true
+  | .atom "false" => some false
+  | _ => none
+
+def toOptBool : Sexp → Option (Option Bool)
+  | .atom "none" => some none
+  | x => (toBool x).map some
+
+def strLe : Str → Str → Bool
+  | [], _ => true
+  | _ :: _, [] => false
+  | a :: as, b :: bs => if a.toNat < b.toNat then true else if a.toNat > b.toNat then false else strLe as bs
+
+def sortKeys {β : Type} (m : List (Str × β)) : List (Str × β) := m.mergeSort (fun a b => strLe a.1 b.1)
+
+def mapSexp (m : List (Str × List Nat)) : List Sexp :=
+  ((sortKeys m).filter (fun p => !p.2.isEmpty)).map (fun p => .list (strAtom p.1 :: p.2.map natAtom))
+
+def mapsObs (i : Idx) : Sexp :=
+  .list [sym "maps",
+    .list (sym "id" :: (sortKeys i.idMap).map (fun p => .list [strAtom p.1, natAtom p.2])),
+    .list (sym "name" :: mapSexp i.nameMap),
+    .list (sym "class" :: mapSexp i.classNameMap),
+    .list (sym "tag" :: mapSexp i.tagNameMap),
+    .list (sym "other" :: (sortKeys i.other).map (fun p => .list (strAtom p.1 :: mapSexp p.2)))]
+
+def ok : Sexp := sym "ok"
+def err : Sexp := .list [sym "err"]
+
+def edit (s : St) (f : Node → Option Node) : St × Sexp :=
+  match s.doc with
+  | some d => match f d with
+    | some d' => ({ s with doc := some d' }, ok)
+    | none => (s, err)
+  | none => (s, err)
+
+def onElem (uid : Nat) (f : Elem → Elem) (d : Node) : Option Node :=
+  match d.find? uid with
+  | some _ => some (d.modify uid f)
+  | none => none
+
+def runQuery (s : St) (doc : Node) (rv op : Sexp) (useIndex : Bool) : Sexp :=
+  let arg : Option (Option Node) := match rv with
+    | .list [.atom "P"] => some none
+    | .list [.atom "P", u] => (toNat? u).bind (fun u => (doc.find? u).map some)
+    | _ => none
+  match arg with
+  | none => sym "bad-recv"
+  | some arg =>
+    let plain := Driver.C06.runOp doc (.parser doc arg) op
+    let indexed : Sexp := match op with
+      | .list [.atom "tag", q] => match toStr? q with
+        | some q => Driver.C06.okTC (idxByTagName s.idx doc q arg useIndex)
+        | none => Driver.C06.bad
+      | .list [.atom "name", q] => match toStr? q with
+        | some q => Driver.C06.okTC (idxByName s.idx doc q arg useIndex)
+        | none => Driver.C06.bad
+      | .list [.atom "id", q] => match toStr? q with
+        | some q => Driver.C06.one (idxById s.idx doc q arg useIndex)
+        | none => Driver.C06.bad
+      | .list [.atom "cls", q] => match toStr? q with
+        | some q => Driver.C06.optTC (idxByClassName s.idx doc q arg useIndex)
+        | none => Driver.C06.bad
+      | .list [.atom "attr", a, v] => match toStr? a, toStr? v with
+        | some a, some v => Driver.C06.okTC (idxByAttr s.idx doc a v arg useIndex)
+        | _, _ => Driver.C06.bad
+      | .list [.atom "vals", a, .list vs] => match toStr? a, vs.mapM toStr? with
+        | some a, some vs => Driver.C06.okTC (idxWithAttrValues s.idx doc a vs arg useIndex)
+        | _, _ => Driver.C06.bad
+      | _ => Driver.C06.bad
+    .list [sym "q", indexed, plain]
+
+def step (s : St) : Sexp → St × Sexp
+  | .list [.atom "parse", n] => match Driver.C06.toNode n with
+    | some d => ({ idx := s.idx.parse d, doc := some d }, ok)
+    | none => (s, sym "bad-doc")
+  | .list [.atom "setattr", u, k, v] => match toNat? u, toStr? k, toStr? v with
+    | some u, some k, some v => edit s (onElem u (·.setAttr k v))
+    | _, _, _ => (s, sym "bad-step")
+  | .list [.atom "delattr", u, k] => match toNat? u, toStr? k with
+    | some u, some k => edit s (onElem u (·.delAttr k))
+    | _, _ => (s, sym "bad-step")
+  | .list [.atom "addclass", u, c] => match toNat? u, toStr? c with
+    | some u, some c => edit s (onElem u (·.addClass c))
+    | _, _ => (s, sym "bad-step")
+  | .list [.atom "rmclass", u, c] => match toNat? u, toStr? c with
+    | some u, some c => edit s (onElem u (·.removeClass c))
+    | _, _ => (s, sym "bad-step")
+  | .list [.atom "append", u, n] => match toNat? u, Driver.C06.toNode n with
+    | some u, some sub => edit s (fun d => (d.find? u).map (fun _ => Node.appendAt u sub d))
+    | _, _ => (s, sym "bad-step")
+  | .list [.atom "remove", u] => match toNat? u with
+    | some u => edit s (fun d => if d.uid == u then none else (d.find? u).map (fun _ => d.removeAt u))
+    | none => (s, sym "bad-step")
+  | .list [.atom "addindex", a] => match toStr? a with
+    | some a => ({ s with idx := s.idx.addIndexOn a }, ok)
+    | none => (s, sym "bad-step")
+  | .list [.atom "rmindex", a] => match toStr? a with
+    | some a => ({ s with idx := s.idx.removeIndexOn a }, ok)
+    | none => (s, sym "bad-step")
+  | .list [.atom "disable"] => ({ s with idx := s.idx.disable }, ok)
+  | .list [.atom "reindex", a, b, c, d] => match toOptBool a, toOptBool b, toOptBool c, toOptBool d, s.doc with
+    | some a, some b, some c, some d, some doc => ({ s with idx := s.idx.reindex doc a b c d }, ok)
+    | _, _, _, _, _ => (s, err)
+  | .list [.atom "setroot", u] => match toNat? u, s.doc with
+    | some u, some doc => match doc.find? u with
+      | some r => ({ idx := s.idx.reindex r none none none none, doc := some r }, ok)
+      | none => (s, err)
+    | _, _ => (s, err)
+  | .list [.atom "maps"] => (s, mapsObs s.idx)
+  | .list [.atom "query", rv, op, ui] => match toBool ui, s.doc with
+    | some ui, some doc => (s, runQuery s doc rv op ui)
+    | _, _ => (s, err)
+  | _ => (s, sym "bad-step")
+
+def loop : St → List Sexp → List Sexp → List Sexp
+  | _, [], acc => acc.reverse
+  | s, x :: xs, acc => let (s', o) := step s x; loop s' xs (o :: acc)
+
+def run (payload : String) : String :=
+  match Sexp.parse payload with
+  | some (.list [.list [a, b, c, d], .list attrs, .list steps]) =>
+    match toBool a, toBool b, toBool c, toBool d, attrs.mapM toStr? with
+    | some a, some b, some c, some d, some attrs =>
+      let idx := attrs.foldl Idx.addIndexOn (Idx.init a b c d)
+      (Sexp.list (loop ⟨idx, none⟩ steps [])).render
+    | _, _, _, _, _ => "bad-case"
+  | _ => "bad-case"
+
 end Driver.C07
